@@ -845,7 +845,7 @@ class DataReference(object):
             represents = sorted(
                 represents,
                 # VV: Sort on iteration number from stage<idx:%d>.<iteration-no:%d>#<name:str>
-                key=lambda c: c.split('.', 1)[1].split('#', 1)[0]
+                key=lambda c: int(c.split('.', 1)[1].split('#', 1)[0])
             )
 
             agg_references = []
@@ -2931,7 +2931,7 @@ class WorkflowGraph(object):
             latest = sorted(
                 matched_components,
                 # VV: Sort on iteration number from stage<idx:%d>.<iteration-no:%d>#<name:str>
-                key=lambda c: c[1].split('#', 1)[0],
+                key=lambda c: int(c[1].split('#', 1)[0]),
                 reverse=True
             )[0]
 
